@@ -1,6 +1,6 @@
 """C05 -- cursor movement and addressing follow the documented clamping rules.
 
-Parametric geometry (columns 1..=140, lines 1..=40 symbolic), symbolic cursor (incl. pending-wrap
+Parametric geometry (columns 1..=300, lines 1..=300 symbolic), symbolic cursor (incl. pending-wrap
 column), margins, DECOM, both parameters {absent} U 0..=9999.  Oracle: closed forms written from the
 statement.  Two families: direct API calls, and csi_dispatch(final, params) for the parameter mapping."""
 import z3
@@ -12,6 +12,7 @@ from ..state import Session, snapshot, opt_u32, slice_u32
 from ..symstate import SymScreen, sym_opt_u32, opt_parts, same, bvv
 
 PROP = 'C05'
+GEOM_MAX = (300, 300)
 
 ONE = ['cursor_up', 'cursor_down', 'cursor_forward', 'cursor_back', 'cursor_down1', 'cursor_up1',
        'cursor_to_column', 'cursor_to_line']
@@ -122,7 +123,7 @@ def path_api(ctx, job, box):
     eng = Engine(prog, ctx)
     box['eng'] = eng
     op = job.params['op']
-    ss = SymScreen(ctx, eng, L, buffer='one', tabstops=1, savepoints=0)
+    ss = SymScreen(ctx, eng, L, buffer='one', tabstops=1, savepoints=0, geom_max=GEOM_MAX)
     ses = Session(eng, L, screen=ss.value)
     pre = ss.value
     a = b = None
@@ -177,7 +178,7 @@ def path_csi(ctx, job, box):
     fin = job.params['final']
     nparams = job.params['nparams']
     op = FINALS[fin]
-    ss = SymScreen(ctx, eng, L, buffer='one', tabstops=1)
+    ss = SymScreen(ctx, eng, L, buffer='one', tabstops=1, geom_max=GEOM_MAX)
     ses = Session(eng, L, screen=ss.value)
     pre = ss.value
     ps = []
@@ -234,7 +235,7 @@ def path_parser(ctx, job, box):
     fin = job.params['final']
     nd1, nd2 = job.params['digits']
     op = FINALS[fin]
-    ss = SymScreen(ctx, eng, L, buffer='none', tabstops=0, savepoints=0, titles='none', saved_columns='none')
+    ss = SymScreen(ctx, eng, L, buffer='none', tabstops=0, savepoints=0, titles='none', saved_columns='none', geom_max=GEOM_MAX)
     ses = Session(eng, L, screen=ss.value)
     pre = ss.value
 
@@ -335,10 +336,10 @@ META = {
     'functions': ['cursor_up', 'cursor_down', 'cursor_forward', 'cursor_back', 'cursor_up1', 'cursor_down1',
                   'cursor_to_column', 'cursor_to_line', 'cursor_position', 'backspace', 'cariage_return',
                   'ensure_hbounds', 'ensure_vbounds', 'ParserListener::csi_dispatch'],
-    'bounds': 'columns 1..=140 and lines 1..=40 symbolic; cursor x in 0..=columns, y in 0..lines; margins absent or '
+    'bounds': 'columns 1..=300 and lines 1..=300 symbolic; cursor x in 0..=columns, y in 0..lines; margins absent or '
               '0<=top<bottom<=lines-1; DECOM and every other mode symbolic; each parameter absent or 0..=9999; '
               'csi_dispatch with 0..2 (thorough 3) parameters for finals A B C D E F G H a d e f; the same finals end to end '
               'through Parser<Screen> with 0..2 symbolic digits per parameter, also right after a CSI that was aborted by '
               'CAN/SUB or skipped by `$` with a completed parameter',
-    'outside': 'geometries above 140x40; parameters above 9999 (the recogniser saturates there); the recogniser itself (C03)',
+    'outside': 'geometries above 300x300; parameters above 9999 (the recogniser saturates there); the recogniser itself (C03)',
 }
